@@ -130,6 +130,29 @@ func runAllocConcurrent(c *Ctx, rounds int) {
 				}
 				res[g] = concRes{}
 			}
+			if r%4 == 0 {
+				// all goroutines free ONE outstanding block at the same moment: exactly one Free succeeds
+				blk := net.IPNet{IP: net.IP(p.blockBase(uint64(b))), Mask: net.CIDRMask(p.pageOrMax(), p.bitsLen())}
+				if got, err := p.a.Allocate(blk); err == nil {
+					for g := 0; g < G; g++ {
+						mode[g] = 1
+						res[g] = concRes{got.IP, nil}
+					}
+					step()
+					okc := 0
+					for g := 0; g < G; g++ {
+						if res[g].err == nil {
+							okc++
+						}
+						res[g] = concRes{}
+					}
+					if okc != 1 {
+						bad++
+						c.vio("C06", "concurrent-double-free", fmt.Sprintf("%s: %d of %d simultaneous Free calls of one outstanding block (%v) succeeded; exactly one may", p.desc, okc, G, got.IP),
+							map[string]interface{}{"pool": p.desc, "round": r, "goroutines": G, "block": b})
+					}
+				}
+			}
 			c.Evals++
 		}
 		atomic.StoreInt64(&stop, 1)
